@@ -1,8 +1,13 @@
 (* PollPipeline: the C15 instances for PUSH and PULL (pipeline0/push.c, pull.c;
-   the raw variants are the same code).  Everything holds at full strength. *)
+   the raw variants are the same code).  Everything holds at full strength.
+   PUSH is the pack M_push_r fr over PushModel.push_step_r fr -- fr = the source has the repaired
+   push0_set_send_buf_len (blocked senders move into a resized buffer; Gen/Consts.v
+   C06_PUSH_RESIZE_ADMITS_FIXED) -- and every statement holds for either text; M_push is the pack
+   for the source as it is. *)
 From Coq Require Import List Arith NArith Bool Lia.
-From NngV Require Import Proto.Common Proto.PushModel Proto.PullModel Proto.PushProofs Proto.PullProofs
+From NngV Require Import Gen.Consts Proto.Common Proto.PushModel Proto.PullModel Proto.PushProofs Proto.PullProofs
   Proto.PollModel Proto.PollProofs.
+From NngV Require Proto.PushGuard Proto.PushSubmit.
 Import ListNotations.
 
 Ltac errs := unfold E_OK, E_AGAIN, E_NOTSUP, E_STATE, E_CLOSED, E_PROTO, E_NOMEM, E_CONNRESET, E_CANCELED, E_TIMEDOUT in *.
@@ -11,22 +16,23 @@ Ltac unM M := unfold M in *; cbn [pm_step pm_ok pm_inv pm_busy pm_cls pm_poll pm
 (* ================================================================== PUSH *)
 Definition push_ok (s : push) (o : pop) : Prop :=
   PushProofs.op_ok s o /\ match o with PRecv _ a _ => ~ In a (map fst (ps_aq s)) | _ => True end.
-Definition M_push : pmodel :=
-  mkPM push push_init push_step push_poll push_ok (fun s => PInv s /\ WInv s) (fun s => map fst (ps_aq s)) (fun _ => true).
+Definition M_push_r (fr : bool) : pmodel :=
+  mkPM push push_init (push_step_r fr) push_poll push_ok (fun s => PInv s /\ WInv s) (fun s => map fst (ps_aq s)) (fun _ => true).
+Definition M_push : pmodel := M_push_r C06_PUSH_RESIZE_ADMITS_FIXED.
 
-Lemma push_inv_init : pm_inv M_push (pm_init M_push).
+Lemma push_inv_init {fr} : pm_inv (M_push_r fr) (pm_init (M_push_r fr)).
 Proof. exact push_init_inv. Qed.
-Lemma push_inv_step s o : pm_inv M_push s -> pm_ok M_push s o -> o <> PSockClose -> pm_inv M_push (fst (pm_step M_push s o)).
+Lemma push_inv_step {fr} s o : pm_inv (M_push_r fr) s -> pm_ok (M_push_r fr) s o -> o <> PSockClose -> pm_inv (M_push_r fr) (fst (pm_step (M_push_r fr) s o)).
 Proof.
-  cbn. intros [HI HW] [Hok _] _. destruct (push_step s o) as [s' outs] eqn:E. cbn [fst].
-  split; [exact (proj1 (push_step_law _ _ _ _ HI Hok E))|exact (push_writable_mirror _ _ _ _ HI HW E)].
+  unM M_push_r. intros [HI HW] [Hok _] _. destruct (push_step_r fr s o) as [s' outs] eqn:E. cbn [fst].
+  split; [exact (proj1 (PushSubmit.push_step_r_law _ _ _ _ _ HI Hok E))|exact (PushSubmit.push_r_writable_mirror _ _ _ _ _ HI HW E)].
 Qed.
-Theorem push_c15_inv : C15_inv M_push.
+Theorem push_c15_inv {fr} : C15_inv (M_push_r fr).
 Proof. apply reachable_inv; [exact push_inv_init|exact push_inv_step]. Qed.
 
-Lemma push_nb_send_immediate s : pm_inv M_push s -> nb_send_immediate_at M_push s.
+Lemma push_nb_send_immediate {fr} s : pm_inv (M_push_r fr) s -> nb_send_immediate_at (M_push_r fr) s.
 Proof.
-  intros [HI HW] c a m s' outs [Hok _] H. cbn in Hok, H |- *. cbn [push_step] in H.
+  intros [HI HW] c a m s' outs [Hok _] H. cbn in Hok, H |- *. cbn [push_step_r push_step] in H.
   destruct (ps_pl s) as [|p rest] eqn:PL.
   - destruct (wq_full s) eqn:F; cbn [negb] in H; cbv iota in H; inversion H; subst; clear H.
     + exists E_AGAIN. rewrite compl_of_self. repeat split; auto.
@@ -34,22 +40,22 @@ Proof.
   - inversion H; subst; clear H. exists E_OK. rewrite compl_of_cons, compl_of_self. cbn.
     repeat split; auto. intros X. now elim X.
 Qed.
-Lemma push_nb_recv_immediate s : pm_inv M_push s -> nb_recv_immediate_at M_push s.
+Lemma push_nb_recv_immediate {fr} s : pm_inv (M_push_r fr) s -> nb_recv_immediate_at (M_push_r fr) s.
 Proof.
   intros _ c a s' outs [_ Hok] H. cbn in H, Hok |- *. inversion H; subst; clear H.
   exists E_NOTSUP, None. rewrite compl_of_self. repeat split; auto; [intros X; now elim X|discriminate].
 Qed.
-Lemma push_nb_send_possible s : pm_inv M_push s -> nb_send_possible_at M_push s.
+Lemma push_nb_send_possible {fr} s : pm_inv (M_push_r fr) s -> nb_send_possible_at (M_push_r fr) s.
 Proof.
-  intros _ c a m _ H. unM M_push. cbn [push_step] in *.
+  intros _ c a m _ H. unM M_push_r. cbn [push_step_r push_step] in *.
   destruct (ps_pl s) as [|p rest]; [|reflexivity].
   destruct (wq_full s); cbn [negb] in *; cbv iota in *; [|reflexivity]. cbn [snd] in H. discriminate.
 Qed.
-Lemma push_nb_recv_possible s : pm_inv M_push s -> nb_recv_possible_at M_push s.
+Lemma push_nb_recv_possible {fr} s : pm_inv (M_push_r fr) s -> nb_recv_possible_at (M_push_r fr) s.
 Proof. intros _ c a _ _. reflexivity. Qed.
-Lemma push_nb_send_strict s : pm_inv M_push s -> nb_send_eagain_queues_at M_push s.
+Lemma push_nb_send_strict {fr} s : pm_inv (M_push_r fr) s -> nb_send_eagain_queues_at (M_push_r fr) s.
 Proof.
-  intros _ c a m [Hok _] H. unM M_push. cbn [push_step] in *.
+  intros _ c a m [Hok _] H. unM M_push_r. cbn [push_step_r push_step] in *.
   destruct (ps_pl s) as [|p rest].
   - destruct (wq_full s); cbn [negb] in *.
     + cbn [fst snd ps_aq]. split.
@@ -58,40 +64,40 @@ Proof.
     + cbn [fst snd] in H. rewrite result_of_single in H. discriminate.
   - cbn [fst snd] in H. rewrite result_of_self in H. discriminate.
 Qed.
-Lemma push_nb_recv_strict s : pm_inv M_push s -> nb_recv_eagain_queues_at M_push s.
-Proof. intros _ c a _ H. unM M_push. cbn [push_step snd] in H. rewrite result_of_single in H. discriminate. Qed.
+Lemma push_nb_recv_strict {fr} s : pm_inv (M_push_r fr) s -> nb_recv_eagain_queues_at (M_push_r fr) s.
+Proof. intros _ c a _ H. unM M_push_r. cbn [push_step_r push_step snd] in H. rewrite result_of_single in H. discriminate. Qed.
 
 (* the send descriptor: raised <-> a send would be accepted; there is no receive descriptor *)
-Ltac mir_push HW := unM M_push; unfold rv_send; unM M_push; cbn [push_poll poll_w poll_r push_step];
+Ltac mir_push HW := unM M_push_r; unfold rv_send; unM M_push_r; cbn [push_poll poll_w poll_r push_step_r push_step];
   unfold WInv, can_accept in HW; rewrite HW.
-Lemma push_mirror_w_exact s : pm_inv M_push s -> mirror_w_exact_at M_push s.
+Lemma push_mirror_w_exact {fr} s : pm_inv (M_push_r fr) s -> mirror_w_exact_at (M_push_r fr) s.
 Proof.
   intros [HI HW] a m _ _. mir_push HW.
   destruct (ps_pl s) as [|p rest]; cbn [negb orb].
   - destruct (wq_full s); cbn [negb fst snd]; rewrite result_of_single; errs; split; intros X; congruence.
   - cbn [fst snd]. rewrite result_of_self. split; auto.
 Qed.
-Lemma push_mirror_w_iff s : pm_inv M_push s -> mirror_w_iff_at M_push s.
+Lemma push_mirror_w_iff {fr} s : pm_inv (M_push_r fr) s -> mirror_w_iff_at (M_push_r fr) s.
 Proof.
   intros [HI HW] a m _ _. mir_push HW.
   destruct (ps_pl s) as [|p rest]; cbn [negb orb].
   - destruct (wq_full s); cbn [negb fst snd]; rewrite result_of_single; errs; split; intros X; try congruence; try discriminate.
   - cbn [fst snd]. rewrite result_of_self. split; auto. discriminate.
 Qed.
-Lemma push_mirror_r_all s : mirror_r_at M_push s /\ mirror_r_exact_at M_push s /\ mirror_r_iff_at M_push s.
-Proof. repeat split; intros a _; unM M_push; unfold rv_recv; unM M_push; cbn [push_poll poll_r push_step snd]; apply result_of_single. Qed.
+Lemma push_mirror_r_all {fr} s : mirror_r_at (M_push_r fr) s /\ mirror_r_exact_at (M_push_r fr) s /\ mirror_r_iff_at (M_push_r fr) s.
+Proof. repeat split; intros a _; unM M_push_r; unfold rv_recv; unM M_push_r; cbn [push_poll poll_r push_step_r push_step snd]; apply result_of_single. Qed.
 
-Theorem push_c15_nb_immediate : C15_nb_immediate M_push.
+Theorem push_c15_nb_immediate {fr} : C15_nb_immediate (M_push_r fr).
 Proof. exact (lift_at2 _ push_inv_init push_inv_step _ _ push_nb_send_immediate push_nb_recv_immediate). Qed.
-Theorem push_c15_nb_possible : C15_nb_possible M_push.
+Theorem push_c15_nb_possible {fr} : C15_nb_possible (M_push_r fr).
 Proof. exact (lift_at2 _ push_inv_init push_inv_step _ _ push_nb_send_possible push_nb_recv_possible). Qed.
-Theorem push_c15_nb_strict : C15_nb_strict M_push.
+Theorem push_c15_nb_strict {fr} : C15_nb_strict (M_push_r fr).
 Proof. exact (lift_at2 _ push_inv_init push_inv_step _ _ push_nb_send_strict push_nb_recv_strict). Qed.
-Theorem push_c15_mirror_exact : C15_mirror_exact M_push.
+Theorem push_c15_mirror_exact {fr} : C15_mirror_exact (M_push_r fr).
 Proof. exact (lift_at2 _ push_inv_init push_inv_step _ _ (fun s _ => proj1 (proj2 (push_mirror_r_all s))) push_mirror_w_exact). Qed.
-Theorem push_c15_mirror_iff : C15_mirror_iff M_push.
+Theorem push_c15_mirror_iff {fr} : C15_mirror_iff (M_push_r fr).
 Proof. exact (lift_at2 _ push_inv_init push_inv_step _ _ (fun s _ => proj2 (proj2 (push_mirror_r_all s))) push_mirror_w_iff). Qed.
-Theorem push_c15_mirror : C15_mirror M_push.
+Theorem push_c15_mirror {fr} : C15_mirror (M_push_r fr).
 Proof.
   intros s R. destruct (push_c15_mirror_exact s R) as [A B].
   split; [now apply mirror_r_exact_weaken|now apply mirror_w_exact_weaken].
@@ -183,7 +189,7 @@ Qed.
 Example push_reachable_raised : exists s, reachable M_push s /\ poll_w (pm_poll M_push s) = Some true.
 Proof.
   exists (fst (push_step push_init (PPipeStart 1%N PROTO_PULL))). split; [|reflexivity].
-  apply reachable_step; [apply reachable_init| |discriminate]. cbn. repeat split; auto.
+  apply (reachable_step M_push push_init (PPipeStart 1%N PROTO_PULL)); [apply reachable_init| |discriminate]. cbn. repeat split; auto.
 Qed.
 Example push_reachable_lowered : reachable M_push push_init /\ poll_w (pm_poll M_push push_init) = Some false.
 Proof. split; [apply reachable_init|reflexivity]. Qed.
